@@ -13,7 +13,9 @@ CLAIMS = {
              "incompatibility, two-sided broadcasts (accidental outer products) and results other than (m,) / "
              "(m, k); init is interpreted in a scaled-identity domain (A = lambda*I, A_inv = I/lambda, X'y = 0, "
              "beta = 0); fit updates A and X'y in accumulate form and derives A_inv, beta from them in def-use "
-             "order; writers and documented reads of the model fields; joint row selection. Decides shape "
+             "order; writers and documented reads of the model fields; joint row selection. A may-alias analysis of "
+             "the query parameter (views, helper methods, scalers built with copy=False) shows that no model's "
+             "predict modifies the matrix that is handed to every arm in turn. Decides shape "
              "correctness for every (d, m) and the never-observed-arm model, not numerical agreement with an "
              "oracle. Found and guards the repaired LinTS d=1/m>1 broadcast; A_inv = A.copy() is a known finding.",
         note="Trusted: numpy broadcasting/dot/squeeze rules as encoded in mabstat/rules/shapes.py; scale=True "
@@ -126,6 +128,8 @@ CLAIMS = {
              "reward and uses the observed reward exactly when prediction == decision; the ordered split uses one "
              "boundary complementarily and the random split pairs unpacking targets with arguments; statistics "
              "are computed from same-origin arrays, records share one schema, predictions accumulate in order. "
+             "The choice between neighbourhood and training statistic is made on containers, never on the truth "
+             "value of the number. "
              "Decides the partition/crediting structure; numerical clauses are not decided. Found and guards the "
              "repaired non-advancing online chunk window.",
         note="Trusted: train_test_split returns (train, test) pairs in argument order; slices clamp. Numerical "
@@ -170,7 +174,9 @@ CLAIMS = {
              "object are tracked as constants read off the code; every reward array carries its observation "
              "classes with a conversion counter that a call of the binarizer field increments; at each update of "
              "the Beta counters the count must equal what the property specifies (0 for rewards that arrived "
-             "without a binarizer, 1 otherwise). Found and guards the repaired add_arm defect; TreeBandit's second "
+             "without a binarizer, 1 otherwise). On the same traces the binarizer must receive decisions and "
+             "rewards of the same rows, and no operation may read an attribute the implementor class never gets "
+             "(AttributeError). Found and guards the repaired add_arm defect; TreeBandit's second "
              "conversion is a known finding (and masks further TreeBandit conversion faults).",
         note="Trusted: loops over arms/cluster policies/rows run at least once; the binarizer is only invoked "
              "through the binarizer field; externals table. What a user's binarizer returns is not decided.",
@@ -260,7 +266,9 @@ CLAIMS = {
              "in all 55 configurations, and no in-place write may reach a CALLER object or a bandit field that "
              "may alias one; MAB.arms is shown to be a fresh copy; the validator and converter isinstance tables "
              "are compared and every converter branch is shown to return identity-on-C-contiguous / .values / "
-             "np.asarray(order='C') and to end in raise. Decides 'inputs cannot be modified' and 'every accepted "
+             "np.asarray(order='C') and to end in raise. Estimators built with copy=False / copy_x=False count as "
+             "writing into their operand; no container-specific converter branch may read an attribute that the "
+             "implementor cannot have. Decides 'inputs cannot be modified' and 'every accepted "
              "container type is converted'; equality of numerical results across container types is not decided.",
         note="Trusted: externals table (views vs copies, mutators); pandas .values treated as a view; CPython ast.",
         technique="ownership/alias lattice (FRESH/BANDIT/CALLER/GLOBAL) over abstract-interpretation traces; "
